@@ -6,7 +6,6 @@ From Coq Require Import ZifyBool ZifyN.
 From LE Require Import Exec.VerifyBlock Exec.Process.
 Import ListNotations.
 Local Open Scope N_scope.
-Set Default Timeout 20.
 
 (* what forge() obtains and computes *)
 Record genv := mkGE {
@@ -84,5 +83,5 @@ Proof.
   assert (E4 : (xe_params_changed x && negb (xe_set_params_ok x)) = false).
   { destruct (xe_params_changed x); [rewrite X6 by reflexivity|]; reflexivity. }
   rewrite E4. cbn [b_header h_vhash h_eventroot forge_block]. rewrite V, ER, !beq_refl. cbn [negb].
-  assert (E5 : (max_events <? xe_nevents x) = false) by (apply N.ltb_ge; exact NE). rewrite E5, CM. reflexivity.
+  assert (E5 : (max_events <? xe_nevents x) = false) by (apply N.ltb_ge; exact NE). rewrite E5, CM, ?N.eqb_refl. reflexivity.
 Qed.
